@@ -1,6 +1,7 @@
 import BFL.Proofs.RaceTable
 import BFL.Proofs.RacePhase
 import BFL.Proofs.RaceScoped
+import BFL.Proofs.RaceObject
 /-
 C10 — the control interface may be used from another thread without data races.
 
@@ -26,6 +27,9 @@ For the table of the current tree (obligations re-evaluated by the kernel on eve
     skip flags, which are `AtomicFlag`s since c5f4aef (shared location `AtomicFlag::value_`, atomic);
   * **`race_free : RaceFree table`** — the full-strength statement — with its whole-program form
     `race_free_program` and the RAII form `race_free_scoped`;
+  * `table_join_certified` / `handle_joined`: `wait()` joins the thread `boot()` created and no function
+    of either role detaches / moves / reassigns the handle — the shape `… ++ [join] ++ tear-down` assumed by
+    `race_free_program` is certified from the table, not assumed;
   * polarity-independent companions, true for whatever the code says: `table_undisciplined_exact`,
     `race_witness_exact` (a member has a racy interleaving iff the regenerated file lists it; the file
     then also carries a `…_counterexample` theorem per member), `race_free_iff`.
@@ -39,12 +43,21 @@ TRUSTED (not proved):
      `lock_guard` / `unique_lock` / `scoped_lock` scopes on mutex members of `this` (early `unlock()`,
      loops, stored lambdas treated conservatively), entry locksets of functions only called under a
      lock, expansion of virtual calls over the class hierarchy;
-     not seen: accesses through raw pointers to members, calls through `std::function`, manual
-     `m.lock()` / `m.unlock()` (treated as unlocked), code outside namespace bfl (Eigen, libstdc++);
+     lambdas stored in `std::function` members are resolved to pseudo-functions `Class::member$closure`
+     called where the member is invoked; manual `m.lock(); … m.unlock();` and `lk.lock()` re-locks are
+     recognised at block level; functions handing out references / pointers / `Eigen::Ref` into members get
+     no lock credited (the reference may outlive every scope) and count as writes unless const;
+     not seen: what *user code* does with such a reference on another thread, `std::function`s that are
+     not members, code outside namespace bfl (Eigen, libstdc++);
   3. the role map (`controllerRoots`, `filterRoots`) and `Conforms` / `Scoped` as a description of what
      the two threads execute between `boot()` and the return of `wait()`; a single controller thread;
   4. the class-level abstraction: a row's lockset names mutex members of the *same object* as the
-     accessed member (both through `this`), objects are distinguished in the semantics (`Loc`, `Mx`).
+     accessed member — an explicit part of `Justified`, necessary (`same_object_necessary`), certified
+     syntactically as far as possible (`table_locks_certified`: locks only via `this`, mutex members only);
+  5. the controller's entry points are the commands the property names (run, reset, reboot, teardown,
+     step number, running state, skip; plus boot / wait).  `Logger::enable_log` / `disable_log` /
+     `get_folder_path` / `get_file_name_prefix` are configuration, not control or query commands of the
+     property: not in the role map (the check reports what they would race with as advisory information).
 The translator and the role map are validated on every run (checks/c10.py): in both directions against
 ThreadSanitizer, and by an independent textual scan of every member function for member names.
 -/
@@ -87,6 +100,15 @@ theorem phase_adj (pre mid post : List Ev) (hpre : ∀ e ∈ pre, e.tid = .contr
 theorem conforms_of_scoped (T : Table) (tr : List Ev) (h : ∀ t, Scoped T t [] (proj t tr)) : Conforms T tr :=
   Race.conforms_of_scoped T tr h
 
+/-- **The class-level abstraction is an explicit, necessary hypothesis.**  `Conforms` (via `Justified`)
+    demands that a row's locks are held on the *same object* as the member it accesses.  Under the
+    weaker reading `ConformsAny` (locks held on some object) the lockset theorem fails: a disciplined
+    member races when the two threads hold the mutexes of two other objects. -/
+theorem same_object_necessary :
+    FieldOK guardedTable 0 ∧ WF crossObjectTrace ∧ ConformsAny guardedTable crossObjectTrace ∧
+      RaceOnField 0 crossObjectTrace :=
+  Race.same_object_necessary
+
 /-- race freedom of a table ⇔ discipline of every member -/
 theorem race_free_iff_disciplined (T : Table) : RaceFree T ↔ ∀ f, FieldOK T f :=
   Race.raceFree_iff T
@@ -106,6 +128,35 @@ theorem table_reach_certified (r : Role) (m : Nat) :
   cases r
   · exact cert_controller.iff m
   · exact cert_filter.iff m
+
+/-- what the translator certifies syntactically towards the same-object hypothesis: a lockset appears only
+    on rows whose object expression is `this` and consists of mutex members only (the translator credits a
+    lock only when mutex and member are reached through the same `this`, in the function itself or in
+    callers along calls on `this`; functions handing out references / pointers / `Eigen::Ref` get none) -/
+theorem table_locks_certified : table.locksCertifiedB = true := locks_certified
+
+/-- **must hold — the join is certified from the table**: the filtering thread performs no operation on
+    a thread handle; the controller spawns only in `boot()`, joins only in `wait()`, and otherwise only
+    asks `joinable()` / queries — no function of either role detaches, moves, swaps or reassigns the
+    handle; `wait()` does contain the `join()`; every access row to the handle lies in `boot()`/`wait()`. -/
+theorem table_join_certified :
+    table.joinCertifiedIn (reachClaim .controller) (reachClaim .filter) = true :=
+  join_certified
+
+/-- Consequence for the handle (state machine `hstep`): whatever thread-handle operations the functions
+    reachable by the controller perform after `boot()` has spawned the thread, the handle is never lost
+    (detached / moved / overwritten while the thread may be alive), and once a `join` has been executed
+    — `wait()` contains one — the filtering thread is joined.  This discharges, from the table, the
+    hypothesis of `race_free_program` that nothing of the filtering thread follows the join. -/
+theorem handle_joined (ops : List ThreadOpKind)
+    (hops : ∀ k ∈ ops, k ≠ .spawn ∧ ∃ o ∈ table.threadOps, (reachClaim .controller).testBit o.meth = true ∧ o.kind = k) :
+    hrun .running ops ≠ .lost ∧ (ThreadOpKind.join ∈ ops → hrun .running ops = .joined) := by
+  apply hrun_benign
+  intro k hk
+  obtain ⟨hne, o, ho, hreach, rfl⟩ := hops k hk
+  rcases (joinCertified_ops table _ _ join_certified).2.1 o ho hreach with ⟨hs, _⟩ | hb
+  · exact absurd hs hne
+  · exact hb
 
 /-- **must hold**: every data member of `FilteringAlgorithm` (run_, reset_, teardown_,
     filtering_step_, the mutex, the condition variable, the thread handle) obeys the discipline -/
@@ -205,7 +256,7 @@ def toy : Table :=
     methods := [⟨name% "FilteringAlgorithm::run", 0, false, true⟩, ⟨name% "FilteringAlgorithm::filtering_recursion", 0, false, true⟩],
     accesses := [⟨0, 0, .write, true, [1], 10⟩, ⟨1, 0, .read, true, [1], 20⟩, ⟨0, 2, .read, true, [], 11⟩, ⟨1, 2, .read, true, [], 21⟩,
                  ⟨0, 3, .write, true, [], 12⟩, ⟨1, 3, .read, true, [1], 22⟩],
-    calls := [] }
+    calls := [], threadOps := [] }
 
 /-- controller: lock, write, unlock; then the filtering thread: lock, read, unlock -/
 def toyTrace : List Ev :=
